@@ -13,10 +13,13 @@ import (
 	"bytes"
 	"errors"
 	"fmt"
+	"io/ioutil"
 	"math/big"
 	"os"
 	"path/filepath"
+	"sync"
 	"sync/atomic"
+	"time"
 
 	"verif/csnet"
 	"verif/kv"
@@ -83,15 +86,21 @@ type Options struct {
 	NoBalanceRecords bool
 	// WalRoot: directory under which the per-instance directory minichain-<pid>-<n> is created. Default /dev/shm.
 	WalRoot string
+	// WalDir, if set, is used as the instance directory as it is (created if missing, never removed by Close):
+	// for harnesses that must know the path of kvState.wal before New returns (e.g. to snapshot the file from
+	// inside an injected database device). Two live chains must not share it.
+	WalDir string
 	// GenesisTime: time of block 0; block h gets GenesisTime + h. Default DefaultGenesisTime.
 	GenesisTime uint64
 }
 
-// DefaultMempoolConfig is config.DefaultMempoolConfig() with broadcasting off and a small broadcast queue.
+// DefaultMempoolConfig is config.DefaultMempoolConfig() with broadcasting off, a small broadcast queue and no
+// wall-clock expiry of queued special transactions.
 func DefaultMempoolConfig() *cfg.MempoolConfig {
 	m := cfg.DefaultMempoolConfig()
 	m.Broadcast = false
 	m.BroadcastChanSize = 1
+	m.Lifetime = 1000 * time.Hour // wall-clock life time of queued special transactions (60 s in the repository)
 	return m
 }
 
@@ -142,6 +151,11 @@ func (d dirDB) Dir() string { return d.dir }
 func init() {
 	// types/tx.go's init() points the root logger at stdout; trace logging costs more than the execution.
 	log.Root().SetHandler(log.DiscardHandler())
+	// The fixture owns time: the mempool drops a good transaction that has waited for GoodTxDropTime (60 s) of WALL
+	// CLOCK time when the next block is committed. A harness paused in a debugger or starved on a loaded machine
+	// would see different pools from run to run. Both are package variables meant to be configured.
+	mempl.GoodTxDropTime = 1000 * time.Hour
+	mempl.GoodTxRebroadcastTime = 1000 * time.Hour
 }
 
 // noPoceeds is the PoceedHandle of a chain without the foundation contract: it does nothing and succeeds.
@@ -176,7 +190,31 @@ func (o *Options) fill() {
 	}
 }
 
+var sweepOnce sync.Once
+
+// SweepStale removes the instance directories (minichain-<pid>-<n>) under root that belong to processes which no
+// longer exist (a harness that exits through os.Exit or a kill cannot run Close). New does it once per process.
+func SweepStale(root string) {
+	ents, err := ioutil.ReadDir(root)
+	if err != nil {
+		return
+	}
+	for _, e := range ents {
+		var pid, n int
+		if !e.IsDir() {
+			continue
+		}
+		if k, _ := fmt.Sscanf(e.Name(), "minichain-%d-%d", &pid, &n); k != 2 || pid == os.Getpid() {
+			continue
+		}
+		if _, err := os.Stat(fmt.Sprintf("/proc/%d", pid)); os.IsNotExist(err) {
+			os.RemoveAll(filepath.Join(root, e.Name()))
+		}
+	}
+}
+
 func newWalDir(root string) (string, error) {
+	sweepOnce.Do(func() { SweepStale(root) })
 	n := atomic.AddUint64(&instanceCounter, 1)
 	dir := filepath.Join(root, fmt.Sprintf("minichain-%d-%d", os.Getpid(), n))
 	if err := os.MkdirAll(dir, 0700); err != nil {
@@ -197,23 +235,33 @@ func New(opts Options) (c *Chain, err error) {
 	for _, n := range DBNames {
 		dbs[n] = opts.NewDB(n)
 	}
-	dir, err := newWalDir(opts.WalRoot)
-	if err != nil {
+	dir, own := opts.WalDir, false
+	if dir == "" {
+		if dir, err = newWalDir(opts.WalRoot); err != nil {
+			return nil, err
+		}
+		own = true
+	} else if err = os.MkdirAll(dir, 0700); err != nil {
 		return nil, err
+	}
+	cleanup := func() {
+		if own {
+			os.RemoveAll(dir)
+		}
 	}
 	defer func() {
 		if r := recover(); r != nil {
-			os.RemoveAll(dir)
+			cleanup()
 			c, err = nil, fmt.Errorf("minichain.New: panic: %v", r)
 		}
 	}()
 	if err = writeGenesis(&opts, dbs, dir); err != nil {
-		os.RemoveAll(dir)
+		cleanup()
 		return nil, err
 	}
-	c, err = boot(&opts, dbs, dir, true)
+	c, err = boot(&opts, dbs, dir, own)
 	if err != nil {
-		os.RemoveAll(dir)
+		cleanup()
 		return nil, err
 	}
 	c.Track(cfg.ContractFoundationAddr)
@@ -375,7 +423,42 @@ func (c *Chain) Propose(txs types.Txs, fromPool bool, maxTxs int, o BlockOpts) (
 			return block, nil, fmt.Errorf("%w: %v", ErrPreRun, perr)
 		}
 	}
-	return block, block.MakePartSet(st.ConsensusParams.BlockGossip.BlockPartSizeBytes), nil
+	parts = block.MakePartSet(st.ConsensusParams.BlockGossip.BlockPartSizeBytes)
+	// The object createProposalBlock returns is only used for its part set: the proposer sends the parts to itself
+	// and works, like every other validator, on the block DECODED from them (addProposalBlockPart). That matters:
+	// processBlock logs block.Hash() before PreRunBlock fills in StateHash/ReceiptHash/GasUsed, and Block.Hash()
+	// caches, so the object built here carries a stale hash.
+	block, err = BlockFromParts(parts, st.ConsensusParams.BlockSize.MaxBytes)
+	if err != nil {
+		return nil, nil, err
+	}
+	return block, parts, nil
+}
+
+// BlockFromParts decodes a block from a complete part set exactly as ConsensusState.addProposalBlockPart does.
+func BlockFromParts(parts *types.PartSet, maxBytes int) (*types.Block, error) {
+	if !parts.IsComplete() {
+		return nil, fmt.Errorf("minichain: part set incomplete")
+	}
+	var b *types.Block
+	if _, err := ser.DecodeReader(parts.GetReader(), &b, int64(maxBytes)); err != nil {
+		return nil, fmt.Errorf("minichain: decode block from parts: %v", err)
+	}
+	return b, nil
+}
+
+// CopyParts rebuilds a part set part by part from its header, as a peer that received the parts does (every part's
+// Merkle proof is verified by AddPart).
+func CopyParts(parts *types.PartSet) (*types.PartSet, error) {
+	ps := types.NewPartSetFromHeader(parts.Header())
+	for i := 0; i < parts.Total(); i++ {
+		p := parts.GetPart(i)
+		cp := &types.Part{Index: p.Index, Bytes: append([]byte{}, p.Bytes...), Proof: p.Proof}
+		if _, err := ps.AddPart(cp); err != nil {
+			return nil, err
+		}
+	}
+	return ps, nil
 }
 
 // lastFaultValsInfo mirrors ConsensusState.getLastFaultValsInfo.
@@ -547,13 +630,18 @@ func (c *Chain) commit(b *types.Block, parts *types.PartSet, seen *types.Commit,
 }
 
 // Attach makes r the replica that Step checks every block against and keeps in step. r must be at the same height.
-func (c *Chain) Attach(r *Chain) { c.replica = r }
+func (c *Chain) Attach(r *Chain) {
+	c.replica = r
+	if r != nil {
+		r.adoptUniverse(c)
+	}
+}
 
 // Attached returns the attached replica or nil.
 func (c *Chain) Attached() *Chain { return c.replica }
 
-// Step = MakeBlock(txs) -> CheckBlock of a wire copy on the attached replica (if any) -> Commit -> Commit on
-// the replica. The block returned is the proposer's.
+// Step = MakeBlock(txs) -> CheckBlock on the attached replica (if any) of the block decoded from a copy of the
+// proposer's parts -> Commit -> Commit on the replica. The block returned is the proposer's.
 func (c *Chain) Step(txs types.Txs) (*types.Block, error) {
 	b, parts, err := c.MakeBlock(txs)
 	if err != nil {
@@ -573,8 +661,16 @@ func (c *Chain) StepFromMempool(maxTxs int) (*types.Block, error) {
 
 func (c *Chain) finishStep(b *types.Block, parts *types.PartSet) error {
 	var rb *types.Block
+	var rparts *types.PartSet
 	if c.replica != nil {
-		rb = CloneBlock(b)
+		// the replica receives the proposer's parts and decodes its own block object from them
+		var err error
+		if rparts, err = CopyParts(parts); err != nil {
+			return err
+		}
+		if rb, err = BlockFromParts(rparts, c.status.ConsensusParams.BlockSize.MaxBytes); err != nil {
+			return err
+		}
 		if !c.replica.CheckBlock(rb) {
 			return ErrReplicaRejected
 		}
@@ -583,7 +679,6 @@ func (c *Chain) finishStep(b *types.Block, parts *types.PartSet) error {
 		return err
 	}
 	if c.replica != nil {
-		rparts := rb.MakePartSet(c.status.ConsensusParams.BlockGossip.BlockPartSizeBytes)
 		if err := c.replica.Commit(rb, rparts); err != nil {
 			return fmt.Errorf("replica: %v", err)
 		}
@@ -596,17 +691,22 @@ func (c *Chain) finishStep(b *types.Block, parts *types.PartSet) error {
 // the seen commits of this chain). It is NOT attached.
 func (c *Chain) Replica() (*Chain, error) {
 	o := c.opts
+	o.WalDir = "" // never share the undo log
 	r, err := New(o)
 	if err != nil {
 		return nil, err
 	}
 	for h := uint64(1); h <= c.Height(); h++ {
-		b := c.blockStore.LoadBlock(h)
-		if b == nil {
+		parts, err := c.LoadParts(h)
+		if err != nil {
 			r.Close()
-			return nil, fmt.Errorf("minichain: block %d missing", h)
+			return nil, err
 		}
-		parts := b.MakePartSet(r.status.ConsensusParams.BlockGossip.BlockPartSizeBytes)
+		b, err := BlockFromParts(parts, r.status.ConsensusParams.BlockSize.MaxBytes)
+		if err != nil {
+			r.Close()
+			return nil, err
+		}
 		if err := r.CommitWithSeen(b, parts, c.blockStore.LoadSeenCommit(h)); err != nil {
 			r.Close()
 			return nil, fmt.Errorf("minichain: replica replay of block %d: %v", h, err)
@@ -637,11 +737,39 @@ func (c *Chain) IsTrie() bool                           { return c.opts.IsTrie }
 // Height of the block store (= application height).
 func (c *Chain) Height() uint64 { return c.blockStore.Height() }
 
+// LoadParts returns the stored part set of block h (the proposer's bytes).
+func (c *Chain) LoadParts(h uint64) (*types.PartSet, error) {
+	meta := c.blockStore.LoadBlockMeta(h)
+	if meta == nil {
+		return nil, fmt.Errorf("minichain: block %d missing", h)
+	}
+	ps := types.NewPartSetFromHeader(meta.BlockID.PartsHeader)
+	for i := 0; i < meta.BlockID.PartsHeader.Total; i++ {
+		p := c.blockStore.LoadBlockPart(h, i)
+		if p == nil {
+			return nil, fmt.Errorf("minichain: part %d of block %d missing", i, h)
+		}
+		if _, err := ps.AddPart(p); err != nil {
+			return nil, err
+		}
+	}
+	return ps, nil
+}
+
 // LoadBlock returns block h from the block store (nil if absent).
 func (c *Chain) LoadBlock(h uint64) *types.Block { return c.blockStore.LoadBlock(h) }
 
 // TxsResult returns the persisted execution result of block h.
 func (c *Chain) TxsResult(h uint64) (*types.TxsResult, error) { return c.blockStore.LoadTxsResult(h) }
+
+// TxsResultHash returns the StateHash stored for block h (zero if absent).
+func (c *Chain) TxsResultHash(h uint64) common.Hash {
+	r, err := c.blockStore.LoadTxsResult(h)
+	if err != nil || r == nil {
+		return common.Hash{}
+	}
+	return r.StateHash
+}
 
 // LastTxsResult is the in-memory result of the last committed block, including the fields that are not
 // persisted (UTXOOutputs(), KeyImages(), SpecialTxs()).
